@@ -778,8 +778,14 @@ func (val Value) Modulo(other Value) Value {
 
 	// FIXME: This is a bit clumsy. Should come back later and see if there's a
 	// more straightforward way to do this.
-	rat := val.Divide(other)
-	ratFloat := rat.v.(*big.Float)
+	//
+	// The quotient, the product and the difference are all computed at the
+	// same working precision as Multiply uses, because the precision of the
+	// operands is not enough for them: a number made from a float64 has only
+	// 53 bits, and 1e16 % 3 would lose its remainder to rounding.
+	v := val.v.(*big.Float)
+	o := other.v.(*big.Float)
+	ratFloat := new(big.Float).SetPrec(512).Quo(v, o)
 	if ratFloat.IsInf() {
 		// The quotient is too large to represent, so there is no finite
 		// remainder to compute either.
@@ -787,12 +793,20 @@ func (val Value) Modulo(other Value) Value {
 	}
 	ratFloorInt, _ := ratFloat.Int(nil)
 
-	// start with a copy of the original larger value so that we do not lose
-	// precision.
-	v := val.v.(*big.Float)
-	work := new(big.Float).Copy(v).SetInt(ratFloorInt)
-	work.Mul(other.v.(*big.Float), work)
+	work := new(big.Float).SetPrec(512)
+	work.Mul(o, new(big.Float).SetInt(ratFloorInt))
 	work.Sub(v, work)
+
+	// now reduce the precision back to the greater argument, or the minimum
+	// required by the result.
+	resPrec := v.Prec()
+	if o.Prec() > resPrec {
+		resPrec = o.Prec()
+	}
+	if minPrec := work.MinPrec(); minPrec > resPrec {
+		resPrec = minPrec
+	}
+	work.SetPrec(resPrec)
 
 	return NumberVal(work)
 }
